@@ -767,9 +767,11 @@ def step (line impl : String) : String × Verdict :=
   | [op, l, r, o, i, a, j, b] =>
     match W.find l, W.find r, W.find o, i.toNat?, C.parse a, j.toNat?, C.parse b with
     | some TL, some TR, some TO, some i, some a, some j, some b =>
-      if !(op == "dmul" || op == "ddiv") then bad else
+      if !(op == "dmul" || op == "ddiv" || op == "dmulu" || op == "ddivu") then bad else
+      -- `dmul`/`ddiv`: oracle of C04 (magnitude); `dmulu`/`ddivu`: oracle of C05 (choice of the unit)
+      let unitOracle := op == "dmulu" || op == "ddivu"
       if !(TL.kind == .withRef && TR.kind == .withRef && TO.kind == .withRef) then bad else
-      let isMul := op == "dmul"
+      let isMul := op == "dmul" || op == "dmulu"
       let x : Q A Nat := ⟨a, i⟩
       let y : Q A Nat := ⟨b, j⟩
       let res := if isMul then dmul R (TL.qt R) (TR.qt R) (TO.qt R) x y
@@ -820,7 +822,7 @@ def step (line impl : String) : String × Verdict :=
                     let E := (eligible (TO.qt R)).filterMap (fun u => R.val (TO.scaleOf R u))
                     Oracle.c05fit E ((eligible (TO.qt R)).contains w) sw mag tol
                   | _, _, _, _ => .skip "non-finite"
-            (magV.and refV).and unitV
+            if unitOracle then refV.and unitV else magV
       (out, v)
     | _, _, _, _, _, _, _ => bad
   | ["new", t, i, a] =>
